@@ -286,6 +286,43 @@ tok%(u)s(n: SI): Integer == {
     return d, [], "tok%s(%d)" % (u, 1)
 
 
+def b_deeprec(u, rng, n):
+    """Non-tail recursion: live temporaries in thousands of stack frames while collections run."""
+    d = '''
+dp%(u)s(n: SI): List SI == {
+	n = 0 => nil;
+	t: List SI := [n, n+1];
+	r := dp%(u)s(n - 1);
+	cons(first t + #r rem 3, r)
+}
+rcr%(u)s(n: SI): SI == {
+	l := dp%(u)s n;
+	s: SI := 0;
+	for x in l repeat s := (s + x) rem %(M)d;
+	s
+}
+''' % dict(u=u, M=M)
+    return d, [], "rcr%s(%d)" % (u, rng.choice([200, 800, 1500, 2500]))
+
+
+def b_ptrarray(u, rng, n):
+    """Arrays whose elements are the only references to records and lists."""
+    d = '''
+PR%(u)s == Record(a: SI, l: List SI);
+par%(u)s(n: SI): SI == {
+	import from PR%(u)s, Array PR%(u)s, Array List SI;
+	a: Array PR%(u)s := new(n, [0, nil]);
+	for i: SI in 1..n repeat a.i := [i, [i, i+1, i+2]];
+	b: Array List SI := new(n, nil);
+	for i: SI in 1..n repeat b.i := [j for j: SI in 1..(i rem 5)];
+	s: SI := 0;
+	for i: SI in 1..n repeat s := (s + a.i.a + #(a.i.l) + #(b.i)) rem %(M)d;
+	s
+}
+''' % dict(u=u, M=M)
+    return d, [], "par%s(%d)" % (u, max(2, min(n, 4000)))
+
+
 def b_frag(u, rng, n):
     """Fragmentation followed by large objects: a long list is thinned so that the next
     collection frees many pages but no long run of adjacent ones, then arrays of tens
@@ -327,6 +364,7 @@ BLOCKS = [("list", b_list, 4), ("record", b_record, 4), ("node", b_node, 2), ("c
           ("generator", b_generator, 2), ("bigint", b_bigint, 3), ("string", b_string, 2), ("table", b_table, 2),
           ("array", b_array, 3), ("domain", b_domain, 1),
           ("exn", b_exn, 2), ("union", b_union, 2), ("float", b_float, 1), ("tokens", b_tokens, 1),
+          ("deeprec", b_deeprec, 2), ("ptrarray", b_ptrarray, 2),
           ("frag", b_frag, 0)]		# weight 0: only when forced (it is expensive)
 
 
